@@ -3,6 +3,7 @@ package ssaexec
 import (
 	"fmt"
 	"os"
+	"sync"
 	"go/types"
 	"sort"
 	"strings"
@@ -68,6 +69,7 @@ type Options struct {
 	Tier      int
 	Merge     map[string]bool
 	IfConv    bool
+	Preempt   int // bound on preemptive context switches per path (-1 = unbounded)
 }
 
 type PathResult struct {
@@ -100,6 +102,14 @@ type Lifter interface {
 type Exec struct {
 	sc        *scope
 	mergeMark []int // cell-id watermarks of active merged calls
+	threads   []*thread
+	cur       *thread
+	locks     map[*Cell]*lockState
+	groups    map[*Cell]*groupState
+	pendingPanic interface{}
+	preemptions int
+	threadWG  sync.WaitGroup
+	Switches  int
 	TapeIn    []TapeEntry
 	tapePos   int
 	Merged    map[string]int
@@ -533,6 +543,7 @@ func (x *Exec) RunPath(fn *ssa.Function, prefix []int) (res *PathResult, forks [
 	x.pc = x.pc[:0]
 	x.sc = &scope{prefix: prefix}
 	x.tapePos = 0
+	x.preemptions = 0
 	x.mergeMark = nil
 	x.modelOK = false
 	x.inputs = nil
@@ -552,6 +563,8 @@ func (x *Exec) RunPath(fn *ssa.Function, prefix []int) (res *PathResult, forks [
 	res = &PathResult{}
 	defer func() {
 		r := recover()
+		x.killThreads()
+		x.groups = nil
 		res.Decisions = x.sc.trace
 		res.Reached = x.reached
 		res.Findings = x.findings
